@@ -112,11 +112,13 @@ pub fn c05_scenario(ch: &mut Chooser, thorough: bool) -> Exec {
     let ds: &[u64] = &[1, 2, 3, 5, 10];
     let d1 = *ch.of("h1_sleep_ms", ds);
     let d2 = *ch.of("late_host_sleep_ms", &[2u64, 5]);
-    let late_at = *ch.of("late_host_registered_after_steps", &[1usize, 4]);
+    // steps taken while nothing is registered yet: the simulation clock advances all the same
+    let base = *ch.of("steps_before_anything_is_registered", &[0usize, 2]);
+    let late_at = base + *ch.of("late_host_registered_after_steps", &[1usize, 4]);
     // fault script for h1 (or for the late-registered h2): crash at step c, bounce k steps
     // later; or h1 finishes by itself and is bounced
     let victim: &'static str = *ch.of("fault_target", &["h1", "h2"]);
-    let shift = if victim == "h2" { late_at + 1 } else { 0 };
+    let shift = if victim == "h2" { late_at + 1 } else { base };
     let h1_finishes = victim == "h1" && ch.flag("h1_software_returns_by_itself");
     let crash_points: Vec<Option<usize>> = if thorough {
         std::iter::once(None).chain((0..11).map(Some)).collect()
@@ -144,26 +146,38 @@ pub fn c05_scenario(ch: &mut Chooser, thorough: bool) -> Exec {
     let epoch_dur = epoch.duration_since(UNIX_EPOCH).unwrap();
     let tickd = Duration::from_millis(tick);
 
+    for k in 0..base {
+        if let Err(e) = sim.step() {
+            return Exec { outcome: 0, violation: Some(Violation::new("sim-error", e.to_string())), features: vec![] };
+        }
+        let want = Duration::from_millis(tick) * (k as u32 + 1);
+        if sim.elapsed() != want {
+            let mut v = Violation::new("sim-clock", format!("after {} steps of {tick}ms with nothing registered: Sim::elapsed = {:?} (want {:?})", k + 1, sim.elapsed(), want));
+            v.sig = "sim-clock".into();
+            v.scenario = format!("c05 tier={} empty-simulation steps", if thorough { "thorough" } else { "quick" });
+            return Exec { outcome: 0, violation: Some(v), features: vec![] };
+        }
+    }
     let st_h1 = st.clone();
     let fin = if h1_finishes { Some(2 * tick + 1) } else { None };
     sim.host("h1", move || clock_program(st_h1.clone(), "h1", d1, fin));
     sim.client("c1", clock_program(st.clone(), "c1", 2, None));
     // registration step of every host (steps completed at registration)
-    let mut reg: Vec<(&'static str, usize)> = vec![("h1", 0), ("c1", 0)];
+    let mut reg: Vec<(&'static str, usize)> = vec![("h1", base), ("c1", base)];
     let mut obs: Vec<String> = vec![];
     let mut violation: Option<Violation> = None;
     let mut feats: Vec<&'static str> = vec![];
     let mut crashed_at_step: Option<usize> = None;
-    let finish_step = if h1_finishes { Some(((2 * tick + 1) as usize).div_ceil(tick as usize)) } else { None };
+    let finish_step = if h1_finishes { Some(base + ((2 * tick + 1) as usize).div_ceil(tick as usize)) } else { None };
 
-    for k in 0..steps {
+    for k in base..steps + base {
         if k == late_at {
             let st_h2 = st.clone();
             sim.host("h2", move || clock_program(st_h2.clone(), "h2", d2, None));
             reg.push(("h2", k));
             feats.push("late-host");
         }
-        if k == 6 {
+        if k == 6 + base {
             sim.client("c2", clock_program(st.clone(), "c2", 3, None));
             reg.push(("c2", k));
         }
